@@ -204,6 +204,12 @@ class Ctx:
 
     def fn(self, qual, file=None, trait=None):
         c = [f for f in self.fns(qual=qual, file=file) if trait is None or (f.get('trait') or '').startswith(trait)]
+        if not c and file is not None:
+            # the anchor may have been turned from a method into a free function of the same file, or the reverse
+            base = qual.split('::')[-1]
+            alt = [f for f in self.fns(file=file) if f['name'].split('::')[-1] == base and not f.get('nested_in') and (trait is None or (f.get('trait') or '').startswith(trait))]
+            if len(alt) == 1:
+                c = alt
         if len(c) != 1:
             raise Incomplete(f'anchor function {qual} ({file or "any file"}) expected once, found {len(c)}')
         return c[0]
@@ -292,7 +298,7 @@ def engine_agreement(ctx, rep):
         missing = []
         bodies = [b for c in m['crates'].values() for b in c['bodies']]
         for b in bodies:
-            if b['kind'] == 'closure' or b.get('derived') or not str(b.get('file', '')).endswith('.rs') or str(b['file']).startswith('/'):
+            if b['kind'] in ('closure', 'promoted') or b.get('derived') or not str(b.get('file', '')).endswith('.rs') or str(b['file']).startswith('/'):
                 continue
             if b.get('exp'):
                 gen += 1
